@@ -20,6 +20,7 @@ import (
 	"encoding/json"
 	"fmt"
 	"math/rand"
+	"runtime"
 	rtmetrics "runtime/metrics"
 	"sort"
 	"strings"
@@ -199,6 +200,8 @@ type collResult struct {
 	Sizes   map[int]int
 	Obs     []collObs
 	StopErr string
+	Stopped bool // the history contained an explicit stop op
+	Leak    int  // goroutines alive after shutdown minus goroutines alive before Start
 }
 
 func collRules(tab []collRule) *config.RulesBasedSamplerConfig {
@@ -248,6 +251,7 @@ func collNTraces(in *collInput) int {
 
 // collRun executes the input on the real collector.
 func collRun(in collInput) (*collResult, error) {
+	goBefore := runtime.NumGoroutine()
 	if in.Workers < 1 {
 		in.Workers = 1
 	}
@@ -526,8 +530,9 @@ func collRun(in collInput) (*collResult, error) {
 					decided[t] = true
 				}
 			}
-			o.Dec = make([]int, res.NTr)
+			o.Dec, o.Forgot = decisions()
 			prev = o.Bufs
+			res.Stopped = true
 			res.Obs = append(res.Obs, o)
 		}
 		if runErr != nil {
@@ -562,13 +567,31 @@ func collRun(in collInput) (*collResult, error) {
 		res.StopErr = collStop(coll, unpark, tx)
 	}
 	sf.Stop()
+	ps.Stop()
+	for t0 := time.Now(); time.Since(t0) < 500*time.Millisecond; {
+		res.Leak = runtime.NumGoroutine() - goBefore
+		if res.Leak <= 0 {
+			break
+		}
+		time.Sleep(200 * time.Microsecond)
+	}
+	if res.Leak < 0 {
+		res.Leak = 0
+	}
 	return res, nil
 }
 
 func collStop(coll *collect.InMemCollector, unpark func(), tx *collTx) string {
 	unpark()
 	done := make(chan error, 1)
-	go func() { done <- coll.Stop() }()
+	go func() {
+		defer func() {
+			if r := recover(); r != nil {
+				done <- fmt.Errorf("Stop panicked: %v", r)
+			}
+		}()
+		done <- coll.Stop()
+	}()
 	select {
 	case err := <-done:
 		if err != nil {
@@ -724,8 +747,8 @@ func collCoq(r *collResult) string {
 	if in.Flush {
 		flush = 1
 	}
-	return fmt.Sprintf("{| k_workers := %s; k_dry := %s; k_kept := %s; k_cfg := %s; k_tables := %s; k_ntr := %s; k_flush := %s; k_items := %s |}",
-		cq.N(uint64(nw)), cq.Bool(in.Dry), cq.N(uint64(collKept(in))), collCfgCoq(in.Cfg, len(in.Tables)), collTablesCoq(in.Tables),
+	return fmt.Sprintf("{| k_workers := %s; k_dry := %s; k_kept := %s; k_stop := %s; k_leak := %s; k_cfg := %s; k_tables := %s; k_ntr := %s; k_flush := %s; k_items := %s |}",
+		cq.N(uint64(nw)), cq.Bool(in.Dry), cq.N(uint64(collKept(in))), cq.N(collStopCode(r)), cq.N(uint64(r.Leak)), collCfgCoq(in.Cfg, len(in.Tables)), collTablesCoq(in.Tables),
 		cq.N(uint64(r.NTr)), cq.N(uint64(flush)), cq.List(items))
 }
 
@@ -797,7 +820,7 @@ func collHeapNow() uint64 {
 	return s[0].Value.Uint64()
 }
 
-const collEmptyCase = "{| k_workers := 1%N; k_dry := false; k_kept := 10000%N; k_cfg := {| c_ver := 0%N; c_tt := 0%Z; c_sd := 0%Z; c_sl := 0%Z; c_me := 0%Z |}; k_tables := [[]]; k_ntr := 0%N; k_flush := 0%N; k_items := [] |}"
+const collEmptyCase = "{| k_workers := 1%N; k_dry := false; k_kept := 10000%N; k_stop := 0%N; k_leak := 0%N; k_cfg := {| c_ver := 0%N; c_tt := 0%Z; c_sd := 0%Z; c_sl := 0%Z; c_me := 0%Z |}; k_tables := [[]]; k_ntr := 0%N; k_flush := 0%N; k_items := [] |}"
 
 func collTags(r *collResult) []string {
 	tags := []string{fmt.Sprintf("workers:%d", len(r.Obs[0].Bufs))}
@@ -842,4 +865,15 @@ func collKept(in collInput) uint {
 		return 10000
 	}
 	return in.KeptSize
+}
+
+// 0: no explicit stop in the history; 1: Stop returned nil; 2: Stop returned an error or hung
+func collStopCode(r *collResult) uint64 {
+	if !r.Stopped {
+		return 0
+	}
+	if r.StopErr != "" {
+		return 2
+	}
+	return 1
 }
